@@ -13,6 +13,16 @@ that set color.diff.old / color.diff.new (three sources), with the input coloure
 red/green and with the configured colours: both are plain removed/added colouring and must be ignored,
 every other colour kept.  The model of the callers of `maybe_raw_line` (which styles count as ordinary,
 per line kind and gitconfig: `Ansi.hunkLineKeepsRaw`) is compared with the binary (`corr_raw_callers`).
+
+Whole streams through the line state machine (session 4, T2; theorems `machine_ignores_raw_line`,
+`machine_ignores_git_colouring`): generated diffs (git / plain `diff -u` / combined with conflict regions,
+random unified-view configurations incl. raw header styles) are run plain and under a git default colouring
+through the hook op `machine.run` (the real `delta()` in-process, observed per line) and through the model
+(`drv_machine`): (a) correspondence of the *coloured* stream hook vs model (states, buffers, rows per line,
+classified rows), (b) the model rows of the two runs satisfy the relation of the theorem (`RowRel`), (c) direct
+oracle on the implementation: the per-line facts agree (`Agree`), the same rows in the same order with the same
+kinds, byte-identical output on every row that is not raw-styled, and raw-styled rows that show the coloured
+input line itself (`machine_whole_streams`).
 """
 import os
 import re
@@ -20,7 +30,7 @@ import threading
 
 from ..core import hx, unhx, parallel_map, sha
 
-DRIVERS = ["drv_ansi"]
+DRIVERS = ["drv_ansi", "drv_machine"]
 _SEEN = {}
 
 
@@ -33,7 +43,7 @@ def report(rep, signature, what, replay):
         rep.violation(signature, what, replay)
 
 
-GENERATED = ["VteTable", "AnsiSgr", "RawLine", "MapStyles"]
+GENERATED = ["VteTable", "AnsiSgr", "RawLine", "MapStyles", "RawUse", "Handlers", "Markers"]
 ESC = "\x1b"
 
 # ------------------------------------------------------------------ independent SGR interpreter
@@ -1225,6 +1235,161 @@ def binary_replay(ctx, rep, case):
     binary_one(ctx, rep, case.get("sub", "default"), case["case"])
 
 
+
+# ------------------------------------------------------------------ whole streams through the state machine (S4 T2)
+
+def colour_stream(lines, states, scheme, rng):
+    """A git default colouring of a diff given as text lines; `states` = the state delta was in after each line of
+    the *plain* run (what kind of line git wrote). Removed / added lines 31 / 32 (whole line for combined diffs),
+    file-header lines bold, commit lines yellow, the `@@ … @@` part cyan; unchanged lines, `\\ No newline` and
+    everything else uncoloured (git's defaults)."""
+    reset = sgr("0") if scheme == "reset0" else sgr("")
+    out = []
+    for ln, st in zip(lines, states):
+        if st in ("HunkMinus", "HunkPlus") and ln[:1] in ("-", "+") and scheme in ("per-marker", "per-word", "ws-error"):
+            col = "31" if st == "HunkMinus" else "32"
+            out.append(colour_rows([(ln[0], ln[1:])], scheme, rng, ("31", "32"))[0] if (ln[0] == "-") == (col == "31")
+                       else sgr(col) + ln + reset)
+        elif st == "HunkMinus" and ln:
+            out.append(sgr("31") + ln + reset)
+        elif st == "HunkPlus" and ln:
+            out.append(sgr("32") + ln + reset)
+        elif st == "HunkHeader" and " @@" in ln[2:]:
+            i = ln.index(" @@", 2) + 3
+            while i < len(ln) and ln[i] == "@":
+                i += 1
+            out.append(sgr("36") + ln[:i] + reset + ln[i:])
+        elif st == "DiffHeader" and ln:
+            out.append(sgr("1") + ln + reset)
+        elif st == "CommitMeta" and ln.startswith("commit "):
+            out.append(sgr("33") + ln + reset)
+        else:
+            out.append(ln)
+    return out
+
+
+def rowrel_model(mp, mc, raws_p, raws_c, tab):
+    """`Machine.RowRel (rawAt ls) (rawAt ls') tab` between the model rows of the plain and of the coloured run."""
+    if len(mp.rows) != len(mc.rows):
+        return "row count %d vs %d" % (len(mp.rows), len(mc.rows))
+    exp = lambda t: t if tab == 0 else t.replace("\t", " " * tab)
+    for j, ((k, t, s), (k2, t2, s2)) in enumerate(zip(mp.rows, mc.rows)):
+        if k != k2 or s != s2:
+            return "row %d: kind/src %r vs %r" % (j, (k, s), (k2, s2))
+        if t == t2:
+            continue
+        rp = raws_p[s] if s < len(raws_p) else ""
+        rc = raws_c[s] if s < len(raws_c) else ""
+        if k == "raw" and any(t == rp + pad and t2 == rc + pad for pad in ("", " ")):
+            continue
+        if k == "other" and t == exp(rp) and t2 == exp(rc):
+            continue
+        return "row %d (%s): texts differ outside the raw-carrying rows: %r vs %r" % (j, k, t[:40], t2[:40])
+    return None
+
+
+def machine_whole_streams(ctx, rep):
+    from .. import machine as M
+    rng = ctx.rng
+    n = ctx.n(26, 400)
+    cases = []
+    for i in range(n):
+        r = rng.random()
+        if r < 0.55:
+            lines, _ = M.gen_git_diff(rng); src = "git"
+        elif r < 0.75:
+            lines, _ = M.gen_plain_diff(rng); src = "diff-u"
+        else:
+            lines = M.gen_combined_diff(rng); src = "combined"
+            if isinstance(lines, tuple):
+                lines = lines[0]
+        if rng.random() < 0.15:
+            lines = M.mutate_lines(rng, list(lines))
+        cfg = M.gen_cfg(rng, color_only=(rng.random() < 0.2))
+        cases.append(dict(cfg=cfg, lines=list(lines), src=src, scheme=rng.choice(SCHEMES), cseed=rng.randrange(1 << 30)))
+    enc = lambda ls: [l.encode("utf-8", "surrogateescape") for l in ls]
+    have_model = bool(ctx.drivers_ok)
+    plain_runs = M.observe(ctx, [(c["cfg"], enc(c["lines"])) for c in cases])
+    import random
+    todo = []
+    for c, (ip, mp) in zip(cases, plain_runs):
+        c["ip"], c["mp"] = ip, mp
+        if not ip.ok:
+            rep.count("machine-streams:plain-run-" + ("panic" if ip.panic else "error"))
+            continue
+        states = [o["state"] for o in ip.obs[:-1]]
+        c["coloured"] = colour_stream(c["lines"], states, c["scheme"], random.Random(c["cseed"]))
+        todo.append(c)
+    col_runs = M.observe(ctx, [(c["cfg"], enc(c["coloured"])) for c in todo])
+    for c, (ic, mc) in zip(todo, col_runs):
+        ip, mp, cfg = c["ip"], c["mp"], c["cfg"]
+        n_esc = sum(l.count(ESC) for l in c["coloured"])
+        cls = "%s:%s%s" % (c["src"], c["scheme"], ":color-only" if cfg.d["colorOnly"] else "")
+        replay = dict(kind="machine-stream", args=cfg.args(), plain=c["lines"], coloured=c["coloured"])
+        rep.case(key=("mstream", c["src"], c["scheme"], cfg.key(), sha(repr(c["lines"]))[:12]), nontrivial=n_esc > 0,
+                 sample=dict(op="machine.run plain vs coloured", source=c["src"], scheme=c["scheme"], n_lines=len(c["lines"]),
+                             first_coloured=c["coloured"][:6]))
+        rep.count("machine-streams:source=" + c["src"])
+        rep.count("machine-streams:scheme=" + c["scheme"])
+        for k in ("commitRaw", "fileRaw", "hhRaw"):
+            if cfg.d[k]:
+                rep.count("machine-streams:" + k)
+        if not ic.ok:
+            report(rep, "machine-noninterference:%s:coloured-run-fails" % cls,
+                   "the plain stream is processed, the coloured one %s: %s" % ("panics" if ic.panic else "fails", ic.msg[:120]), replay)
+            continue
+        # (a) correspondence of the coloured stream: hook vs model
+        if mc is not None:
+            dis = M.compare(cfg, ic, mc)
+            rep.corr_case("machine.run(coloured stream)", not dis, dict(replay, disagreement=dis[:2]))
+        # (b) the theorem's relation on the rows the model driver computes
+        if mp is not None and mc is not None and mp.ok and mc.ok:
+            raws_p = [o["raw"].decode("utf-8", "replace") for o in ip.obs[:-1]]
+            raws_c = [o["raw"].decode("utf-8", "replace") for o in ic.obs[:-1]]
+            bad = rowrel_model(mp, mc, raws_p, raws_c, cfg.d["tab"])
+            rep.corr_case("machine.rowrel(model plain vs coloured)", bad is None, dict(replay, disagreement=bad))
+        # (c) the property on the implementation
+        agree = len(ip.obs) == len(ic.obs) and all(
+            (a["text"], a["commitRe"], a["blame"], a["grep"], a["submodule"]) == (b["text"], b["commitRe"], b["blame"], b["grep"], b["submodule"])
+            for a, b in zip(ip.obs[:-1], ic.obs[:-1]))
+        if not agree:
+            bad_text = len(ip.obs) != len(ic.obs) or any(a["text"] != b["text"] for a, b in zip(ip.obs[:-1], ic.obs[:-1]))
+            if bad_text:
+                report(rep, "machine-noninterference:%s:stripped-line-differs" % cls,
+                       "the stripped line of a coloured input line is not the plain line", replay)
+            else:
+                # `MachineRaw.ingestLine` makes the per-line facts functions of the *stripped* line; the grep / blame
+                # parsers look at the raw line by design (C16 / C17) and are outside that claim
+                only_gb = all((a["commitRe"], a["submodule"]) == (b["commitRe"], b["submodule"]) for a, b in zip(ip.obs[:-1], ic.obs[:-1]))
+                if only_gb:
+                    rep.count("machine-streams:grep/blame-facts-differ(skipped)")
+                else:
+                    rep.corr_case("machineraw.ingest_facts(coloured vs plain)", False, dict(replay, disagreement="commit-regex / submodule fact of a line depends on its colouring"))
+            continue
+        rep.corr_case("machineraw.ingest_facts(coloured vs plain)", True)
+        rep.count("machine-streams:agree")
+        lp, lc = ip.out.split(b"\n"), ic.out.split(b"\n")
+        rp, rc = ip.rows, ic.rows
+        if len(rp) != len(rc) or [k for k, _ in rp] != [k for k, _ in rc]:
+            report(rep, "machine-noninterference:%s:rows-differ" % cls,
+                   "number / kinds of output rows differ between the plain and the coloured stream: %r vs %r"
+                   % ([k for k, _ in rp][:12], [k for k, _ in rc][:12]), replay)
+            continue
+        col_stripped = set(strip_py(x.encode("utf-8", "surrogateescape")) for x in c["coloured"])
+        for j, ((k, t), (_, t2)) in enumerate(zip(rp, rc)):
+            if k != "raw":
+                if lp[j] != lc[j]:
+                    report(rep, "machine-noninterference:%s:%s-row-differs" % (cls, k),
+                           "row %d (%s) differs: %r vs %r" % (j, k, lp[j][:80], lc[j][:80]), replay)
+                    break
+            elif t != t2:
+                report(rep, "machine-noninterference:%s:raw-row-text" % cls,
+                       "raw row %d shows different text: %r vs %r" % (j, t[:60], t2[:60]), replay)
+                break
+        else:
+            rep.count("machine-streams:rows-identical")
+
+
 def run(ctx, rep):
     rep.rule = ("hook level: random lines of text / SGR / CSI / OSC / ESC / DCS / broken-sequence tokens; a case is "
                 "non-trivial when the iterator yields >= 2 element kinds (resp. the SGR has several parameters); "
@@ -1239,6 +1404,7 @@ def run(ctx, rep):
     oracle_strip(ctx, rep, hook)
     binary_run(ctx, rep)
     corr_raw_callers(ctx, rep)
+    machine_whole_streams(ctx, rep)
 
 
 def replay(ctx, rep, obj):
